@@ -50,7 +50,10 @@ RULE_ADDED = (
               'fore the genuine quote. '
               ' '
               'Round 13: chains one of whose certificates carries an issuer name that is not it'
-              "s certifier's subject name (the signature decides). ")
+              "s certifier's subject name (the signature decides). "
+              ' '
+              'Round 14: roots whose PEM body is unpadded and ends in a letter of the END CERTI'
+              'FICATE line (12% of the chains, all chain-building checks). ')
 RULE = RULE + " " + RULE_ADDED.strip()
 ASSUMPTIONS = [
     "oracle: pv/oracle/certv2.py; X.509 parsing itself is shared (cryptography), signature "
